@@ -30,7 +30,7 @@ SPEC = {
         {"bin": "c02", "kind_prefix": "DYN_", "n_factor": 0.4},   # dynamic schemas (harness and model of check C02)
     ],
     "classes": CLASSES,
-    "n_quick": 400, "n_thorough": 8000,
+    "n_quick": 400, "n_thorough": 1600,
     "level": "proof",
     "what_violation": "a failing field does not null exactly the nearest nullable position / is not reported exactly once with its path",
     "rule": ("same generator as C01 with fault injection: worlds with 0%, 4%, 8% or 15% failing resolvers (resolver error, value invalid for its type, "
